@@ -10,6 +10,7 @@ import (
 func init() {
 	vr.Register("Harness_C07_permute", Harness_C07_permute)
 	vr.Register("Harness_C07_sorted_unique", Harness_C07_sorted_unique)
+	vr.Register("Harness_C07_alert_trips", Harness_C07_alert_trips)
 }
 
 // entity kinds over two logical trips (0,1) paired with two logical vehicles (0,1):
@@ -221,5 +222,59 @@ func Harness_C07_sorted_unique() {
 		for j := i + 1; j < len(r.Vehicles); j++ {
 			vr.Assert("C07.vehicles.unique", vr.Or(r.Vehicles[i].ID == nil, r.Vehicles[j].ID == nil, !vr.DeepEq(r.Vehicles[i].ID, r.Vehicles[j].ID)))
 		}
+	}
+}
+
+// One alert whose selectors name K trips (ids symbolic, equal or different),
+// optionally with a trip update for the first trip placed before or after the
+// alert: every identifiable trip appears exactly once in Trips, sorted, and the
+// trip with an entity of its own carries that entity's data.
+func Harness_C07_alert_trips() {
+	K := vr.Param("K", 2)
+	var sels []*gtfsrt.EntitySelector
+	ids := make([]string, K)
+	for k := 0; k < K; k++ {
+		ids[k] = vr.Str(vr.T("sel", k, ".trip_id"))
+		vr.Assume(ids[k] != "")
+		id := ids[k]
+		sels = append(sels, &gtfsrt.EntitySelector{Trip: &gtfsrt.TripDescriptor{TripId: &id}})
+	}
+	aid, tid := "alert", "tu"
+	alert := &gtfsrt.FeedEntity{Id: &aid, Alert: &gtfsrt.Alert{InformedEntity: sels}}
+	ents := []*gtfsrt.FeedEntity{alert}
+	sid := vr.Str("tu.stop")
+	id0 := ids[0]
+	tu := &gtfsrt.FeedEntity{Id: &tid, TripUpdate: &gtfsrt.TripUpdate{Trip: &gtfsrt.TripDescriptor{TripId: &id0}, StopTimeUpdate: []*gtfsrt.TripUpdate_StopTimeUpdate{{StopId: &sid}}}}
+	hasTU := false
+	switch hConcretize(vr.Int("tu.position", 0, 2), 0, 2) {
+	case 1:
+		ents = []*gtfsrt.FeedEntity{tu, alert}
+		hasTU = true
+	case 2:
+		ents = []*gtfsrt.FeedEntity{alert, tu}
+		hasTU = true
+	}
+	r, err := ParseRealtime(vr.Marshal(&gtfsrt.FeedMessage{Header: hHeader("header"), Entity: ents}), &ParseRealtimeOptions{})
+	vr.Assert("C07.returns", err == nil && r != nil)
+	if r == nil {
+		return
+	}
+	for i := 0; i+1 < len(r.Trips); i++ {
+		vr.Assert("C07.trips.sorted", r.Trips[i].ID.Less(r.Trips[i+1].ID))
+	}
+	for k := 0; k < K; k++ {
+		n := 0
+		for i := range r.Trips {
+			if r.Trips[i].ID.ID == ids[k] {
+				n++
+				if k == 0 {
+					vr.Assert("C07.own.trip", r.Trips[i].IsEntityInMessage == hasTU)
+					if hasTU {
+						vr.Assert("C07.own.trip.data", len(r.Trips[i].StopTimeUpdates) == 1)
+					}
+				}
+			}
+		}
+		vr.Assert("C07.alert_trip.once", n == 1)
 	}
 }
